@@ -4,6 +4,9 @@
 -/
 import PyModeS.Properties.C18
 import PyModeS.Tie.Uplink
+
+-- symbolic execution of long generated `do` blocks: generous but finite budget (proof times are seconds)
+set_option maxHeartbeats 1000000
 namespace PyModeS.C18Gen
 open PyModeS PyModeS.Py PyModeS.CRC
 
